@@ -22,6 +22,7 @@ type Task struct {
 
 	canceled  bool
 	executing bool
+	rerun     bool // a submission was dequeued while the task was still executing
 	overtime  bool // locked by scheduleLock
 
 	// these are populated at task creation
@@ -281,6 +282,8 @@ func (t *Task) runWithLocking() {
 
 	// check if task is already executing
 	if t.executing {
+		// Do not lose the submission: run again when the current execution ends.
+		t.rerun = true
 		t.lock.Unlock()
 		return
 	}
@@ -375,7 +378,15 @@ func (t *Task) executeWithLocking() {
 		// RACE CONDITION with L314!
 		t.ctx, t.cancelCtx = context.WithCancel(t.module.Ctx)
 
+		// submitted again while executing?
+		rerun := t.rerun
+		t.rerun = false
+
 		t.lock.Unlock()
+
+		if rerun {
+			t.Queue()
+		}
 	}()
 
 	// reset executeAt to detect if task set next execution itself
